@@ -10,6 +10,7 @@ called repeatedly.  Every statement holds for every capacity, every content `l` 
 iterator makes no callback, so nothing depends on `==`, the profile or an armed injection.
 -/
 import Micromap.Proofs.Iters
+import Micromap.Proofs.StdIterB
 
 namespace Micromap.Props.C09
 open Micromap Micromap.Iters
@@ -313,5 +314,260 @@ example : scriptNexts [.next, .len, .next, .clone, .next, .count, .next] = 3 := 
 example : (match iterToList exRaw 5 ⟨0, 2⟩ exSt with | .ok x _ => x | _ => []) =
     [(0, (7, 70)), (1, (8, 80))] := by decide
 example : mapRange (wr (K := Nat) (· + 1)) 0 5 [(7, 70), (8, 80)] = [(7, 71), (8, 81)] := by decide
+
+end Micromap.Props.C09
+
+
+/-! ## std's provided `nth(k)` and `last()` on the borrowing iterators (`Model/StdIterB.lean`)
+
+`Iter`, `IterMut`, `Keys`, `Values`, `ValuesMut` and `SetIter` do not override `nth`, `advance_by`
+or `last`: these are core's definitions over the crate's `next` (`iterNthR` = `advance_by(k)`, which
+stops at the first `None`, then `next`; `iterLastR` = `next` until `None`), and the script commands
+`.nth k` / `.last` of `iterScriptX` run them.  As everything else about these iterators, the
+statements hold for every capacity, every content `l` (any `r` with `Rep r l`), every `Env` and
+every world. -/
+
+namespace Micromap.Props.C09
+open Micromap Micromap.Iters Micromap.StdIterB
+variable {K V Q : Type}
+
+/-- on scripts without `nth` / `last` the extended interpreter (what the driver runs for scripts
+    with `t<k>` / `z`) IS the interpreter all the statements above are about. -/
+theorem extended_script_extends (R : Render K V) (kind : IterKind) (g : V → V) (cs : List IterCmd)
+    (it : SliceIt) (forks : List SliceIt) :
+    iterScriptX (Q := Q) R kind g (cs.map .base) it forks = iterScript R kind g cs it forks ∧
+    iterOpX (Q := Q) R kind g (cs.map .base) = iterOp R kind g cs :=
+  ⟨iterScriptX_base R kind g cs it forks, iterOpX_base R kind g cs⟩
+
+/-- `nth(k)` on an iterator standing at `j ≤ |l|`: never `ub`, never a panic, the state is
+    untouched; it returns a reference into slot `j+k` and the pair stored there is the `(j+k)`-th
+    entry (`None` if there is none); the iterator then stands at `min (j+k+1) |l|`. -/
+theorem nth_yields {r : Raw K V} {l : List (K × V)} (hr : Rep r l) {j : Nat} (hj : j ≤ l.length) (k : Nat)
+    (s : St K V Q) :
+    iterNthR r k ⟨j, l.length⟩ s =
+      .ok (l[j + k]?.map fun p => (j + k, p), ⟨min (j + k + 1) l.length, l.length⟩) s :=
+  iterNthR_rep hr s k hj
+
+/-- … so a later `len()` reports `|l| - min (j+k+1) |l|`. -/
+theorem len_after_nth (l : List (K × V)) (j k : Nat) :
+    (⟨min (j + k + 1) l.length, l.length⟩ : SliceIt).len = l.length - min (j + k + 1) l.length := rfl
+
+/-- `nth(k)` inside the window is the `k`-th of `k+1` calls of `next`: same result, same iterator
+    afterwards (`steps_from_start` / `after_k_steps` describe the latter). -/
+theorem nth_eq_last_of_steps {r : Raw K V} {l : List (K × V)} (hr : Rep r l) {j : Nat} (hj : j ≤ l.length)
+    (k : Nat) (s : St K V Q) :
+    ∃ os it, iterSteps r (k + 1) ⟨j, l.length⟩ s = .ok (os, it) s ∧
+      iterNthR r k ⟨j, l.length⟩ s = .ok ((os[k]?).join, it) s := by
+  refine ⟨_, _, iterSteps_rep hr s (k + 1) j hj, ?_⟩
+  rw [iterNthR_rep hr s k hj]
+  have e : j + (k + 1) = j + k + 1 := by omega
+  simp [e]
+
+/-- an overshooting `nth(k)` (`|l| ≤ j + k`) returns `None` and exhausts the iterator: every later
+    `next` returns `None` and `len()` is `0`. -/
+theorem nth_overshoot {r : Raw K V} {l : List (K × V)} (hr : Rep r l) {j : Nat} (hj : j ≤ l.length)
+    {k : Nat} (hk : l.length ≤ j + k) (m : Nat) (s : St K V Q) :
+    iterNthR r k ⟨j, l.length⟩ s = .ok (none, ⟨l.length, l.length⟩) s ∧
+    iterSteps r m ⟨l.length, l.length⟩ s = .ok (List.replicate m none, ⟨l.length, l.length⟩) s ∧
+    (⟨l.length, l.length⟩ : SliceIt).len = 0 := by
+  refine ⟨?_, iterSteps_end r (by simp) s m, by simp [SliceIt.len]⟩
+  rw [iterNthR_rep hr s k hj, List.getElem?_eq_none hk]
+  have : min (j + k + 1) l.length = l.length := by omega
+  rw [this]; rfl
+
+/-- `last()` on an iterator standing at `j ≤ |l|` (loop bound `len() + 1`, which is never hit: no
+    `ub`): the state is untouched; it returns a reference into slot `|l| - 1` with the last entry if
+    anything is left and `None` otherwise; the iterator is exhausted. -/
+theorem last_yields {r : Raw K V} {l : List (K × V)} (hr : Rep r l) {j : Nat} (hj : j ≤ l.length)
+    (s : St K V Q) :
+    iterLastR r ((⟨j, l.length⟩ : SliceIt).len + 1) ⟨j, l.length⟩ none s =
+      .ok (if j < l.length then l.getLast?.map fun p => (l.length - 1, p) else none,
+        ⟨l.length, l.length⟩) s :=
+  iterLastR_rep hr s _ j none hj (by simp [SliceIt.len])
+
+/-- `last()` returns `None` iff nothing was left (`j = |l|`). -/
+theorem last_none_iff (l : List (K × V)) {j : Nat} (hj : j ≤ l.length) :
+    (if j < l.length then l.getLast?.map fun p => (l.length - 1, p) else none) = none ↔ j = l.length := by
+  by_cases h : j < l.length
+  · have hne : l ≠ [] := by intro h0; simp [h0] at h
+    simp only [h, if_true]
+    constructor
+    · intro hn
+      cases hl : l.getLast? with
+      | none => exact absurd (List.getLast?_eq_none_iff.mp hl) hne
+      | some p => rw [hl] at hn; cases hn
+    · intro; omega
+  · simp only [h, if_false, true_iff]; omega
+
+/-- the `nth(k)` command in a script over `iter` / `keys` / `values` (`Set::iter` is `keys` at
+    `V = Unit`), iterator at `j ≤ |l|`: it reports `nextOut … j k` — a reference into slot `j+k`
+    showing exactly the stored entry, `None` beyond the end (`nextOut_shared`) —, NOTHING in the
+    container or the world changes, and the script goes on from `min (j+k+1) |l|`. -/
+theorem script_nth_shared (R : Render K V) {kind : IterKind} (hk : ¬ IsMut kind) (g : V → V) (k : Nat)
+    (cs : List IterCmdX) (forks : List SliceIt) {s : St K V Q} {l : List (K × V)} (hr : Rep s.r l)
+    {j : Nat} (hj : j ≤ l.length) :
+    iterScriptX R kind g (.nth k :: cs) ⟨j, l.length⟩ forks s =
+      (iterScriptX R kind g cs ⟨min (j + k + 1) l.length, l.length⟩ forks >>= fun rest =>
+        pure (nextOut kind g l j k :: rest)) s :=
+  iterScriptX_nth_shared R hk g k cs forks hr hj
+
+/-- the `nth(k)` command in a script over `iter_mut` / `values_mut`: the report shows the value
+    after the write `g v` (`nextOut_mut`); EXACTLY the received entry `j+k` is rewritten — the `k`
+    skipped entries are not (`mapRange (wr g) (j+k) (j+k+1) l` is `l` with `g` applied to the value
+    at position `j+k`, and `l` itself when there is no such position); keys, order, length,
+    capacity and the world are untouched. -/
+theorem script_nth_mut (R : Render K V) {kind : IterKind} (hk : IsMut kind) (g : V → V) (k : Nat)
+    (cs : List IterCmdX) (forks : List SliceIt) {s : St K V Q} {l : List (K × V)} (hr : Rep s.r l)
+    {j : Nat} (hj : j ≤ l.length) :
+    ∃ s1 : St K V Q, s1.w = s.w ∧ s1.r.cap = s.r.cap ∧
+      Rep s1.r (mapRange (wr g) (j + k) (j + k + 1) l) ∧
+      iterScriptX R kind g (.nth k :: cs) ⟨j, l.length⟩ forks s =
+        (iterScriptX R kind g cs ⟨min (j + k + 1) l.length, l.length⟩ forks >>= fun rest =>
+          pure (nextOut kind g l j k :: rest)) s1 := by
+  obtain ⟨s1, h1, h2, _, h4, e⟩ := iterScriptX_nth R kind g k cs forks hr hj
+  rw [if_pos hk] at h4
+  exact ⟨s1, h1, h2, h4, e⟩
+
+/-- what "exactly entry `i` is rewritten" means, entry by entry. -/
+theorem written_entry (g : V → V) (l : List (K × V)) (i n : Nat) :
+    (mapRange (wr g) i (i + 1) l)[n]? = if n = i then l[n]?.map (wr g) else l[n]? := by
+  rw [getElem?_mapRange]
+  have : (i ≤ n ∧ n < i + 1) ↔ n = i := by omega
+  simp only [this]
+
+/-- the `last()` command in a script over `iter` / `keys` / `values`: the last entry with slot
+    `|l| - 1` if anything is left, `None` otherwise; nothing changes; the script ends here (the
+    clones taken before are run out, as after `count()`). -/
+theorem script_last_shared (R : Render K V) {kind : IterKind} (hk : ¬ IsMut kind) (g : V → V)
+    (cs : List IterCmdX) (forks : List SliceIt) {s : St K V Q} {l : List (K × V)} (hr : Rep s.r l)
+    {j : Nat} (hj : j ≤ l.length) :
+    iterScriptX R kind g (.last :: cs) ⟨j, l.length⟩ forks s =
+      (iterRunForks kind forks >>= fun rest =>
+        pure ((if j < l.length then nextOut kind g l (l.length - 1) 0 else RV.none) :: rest)) s :=
+  iterScriptX_last_shared R hk g cs forks hr hj
+
+/-- the `last()` command in a script over `iter_mut` / `values_mut`: if anything is left, EXACTLY
+    the last entry is rewritten to `g v` (the entries `last()` passes over are not) and the report
+    shows it after the write; if nothing is left, nothing is written. -/
+theorem script_last_mut (R : Render K V) {kind : IterKind} (hk : IsMut kind) (g : V → V)
+    (cs : List IterCmdX) (forks : List SliceIt) {s : St K V Q} {l : List (K × V)} (hr : Rep s.r l)
+    {j : Nat} (hj : j ≤ l.length) :
+    ∃ s1 : St K V Q, s1.w = s.w ∧ s1.r.cap = s.r.cap ∧
+      Rep s1.r (if j < l.length then mapRange (wr g) (l.length - 1) l.length l else l) ∧
+      iterScriptX R kind g (.last :: cs) ⟨j, l.length⟩ forks s =
+        (iterRunForks kind forks >>= fun rest =>
+          pure ((if j < l.length then nextOut kind g l (l.length - 1) 0 else RV.none) :: rest)) s1 := by
+  obtain ⟨s1, h1, h2, _, h4, e⟩ := iterScriptX_last R kind g cs forks hr hj
+  refine ⟨s1, h1, h2, ?_, e⟩
+  by_cases hlt : j < l.length
+  · simpa [hk, hlt] using h4
+  · simpa [hlt] using h4
+
+/-- after an overshooting `nth(k)` in a script, for EVERY kind: the `nth` reports `None`, each of
+    the `m` later `next` commands reports `None`, `len()` reports `0`, and nothing was written. -/
+theorem script_nth_overshoot (R : Render K V) (kind : IterKind) (g : V → V) {k : Nat} (m : Nat)
+    {s : St K V Q} {l : List (K × V)} (hr : Rep s.r l) {j : Nat} (hj : j ≤ l.length)
+    (hk : l.length ≤ j + k) :
+    ∃ s', iterScriptX R kind g (.nth k :: (List.replicate m IterCmd.next ++ [IterCmd.len]).map .base)
+        ⟨j, l.length⟩ [] s = .ok (RV.none :: (List.replicate m RV.none ++ [RV.nat 0])) s' ∧
+      s'.w = s.w ∧ Rep s'.r l :=
+  iterScriptX_nth_overshoot R kind g m hr hj hk
+
+/-- as the driver observes it (shared kinds): the script `nth(k); len; next; len` on a fresh
+    iterator reports the `k`-th entry with slot `k`, then `|l| - min (k+1) |l|`, then the entry at
+    `min (k+1) |l|` (`None` at the end), then `|l| - min (k+2) |l|`; the state is untouched. -/
+theorem script_nth_then_probe (R : Render K V) {kind : IterKind} (hk : ¬ IsMut kind) (g : V → V) (k : Nat)
+    {s : St K V Q} {l : List (K × V)} (hr : Rep s.r l) :
+    iterOpX R kind g [.nth k, .base .len, .base .next, .base .len] s =
+      .ok [nextOut kind g l 0 k, RV.nat (l.length - min (k + 1) l.length),
+           nextOut kind g l (min (k + 1) l.length) 0, RV.nat (l.length - min (k + 2) l.length)] s := by
+  have hp1 : min (k + 1) l.length ≤ l.length := Nat.min_le_right _ _
+  have e2 : min (min (k + 1) l.length + 0 + 1) l.length = min (k + 2) l.length := by omega
+  have hA : iterScriptX R kind g [.base .len] ⟨min (k + 2) l.length, l.length⟩ [] s =
+      .ok [RV.nat (l.length - min (k + 2) l.length)] s := by
+    simp only [iterScriptX, iterRunForks, bind_apply, pure_apply, SliceIt.len]
+  have hB : iterScriptX R kind g [.base .next, .base .len] ⟨min (k + 1) l.length, l.length⟩ [] s =
+      .ok [nextOut kind g l (min (k + 1) l.length) 0, RV.nat (l.length - min (k + 2) l.length)] s := by
+    rw [iterScriptX_next_eq_nth0, iterScriptX_nth_shared R hk g 0 _ _ hr hp1, e2]
+    simp only [bind_apply, hA, pure_apply]
+  have hC : iterScriptX R kind g [.base .len, .base .next, .base .len] ⟨min (k + 1) l.length, l.length⟩ [] s =
+      .ok [RV.nat (l.length - min (k + 1) l.length), nextOut kind g l (min (k + 1) l.length) 0,
+        RV.nat (l.length - min (k + 2) l.length)] s := by
+    show (iterScriptX R kind g [.base .next, .base .len] ⟨min (k + 1) l.length, l.length⟩ [] >>= fun rest =>
+      pure (RV.nat (SliceIt.len ⟨min (k + 1) l.length, l.length⟩) :: rest)) s = _
+    simp only [bind_apply, hB, pure_apply, SliceIt.len]
+  have h1 := iterScriptX_nth_shared R hk g k [.base .len, .base .next, .base .len] [] hr (Nat.zero_le _)
+  rw [Nat.zero_add] at h1
+  simp only [iterOpX, getS, bind_apply, iterStartR_ok hr s, h1, hC, pure_apply]
+
+/-- as the driver observes it (shared kinds): `next^0; last` on a fresh iterator over a non-empty /
+    empty container. -/
+theorem script_last_from_start (R : Render K V) {kind : IterKind} (hk : ¬ IsMut kind) (g : V → V)
+    {s : St K V Q} {l : List (K × V)} (hr : Rep s.r l) :
+    iterOpX R kind g [.last] s =
+      .ok [if 0 < l.length then nextOut kind g l (l.length - 1) 0 else RV.none] s := by
+  have h1 := iterScriptX_last_shared R hk g [] [] hr (Nat.zero_le _)
+  simp only [iterOpX, getS, bind_apply, iterStartR_ok hr s, h1, iterRunForks, pure_apply]
+
+/-- the composite operation with ANY extended script, for the kinds handing out shared references:
+    it runs to completion and leaves the whole state exactly as it was. -/
+theorem shared_iterX_changes_nothing (R : Render K V) {kind : IterKind} (hk : ¬ IsMut kind) (g : V → V)
+    (script : List IterCmdX) {s : St K V Q} {l : List (K × V)} (hr : Rep s.r l) :
+    ∃ out, iterOpX R kind g script s = .ok out s := by
+  obtain ⟨o, s', _, e, _, _, h3, _⟩ := iterOpX_spec R kind g script hr
+  exact ⟨o, by rw [e, h3 hk]⟩
+
+/-- `iter_mut` / `values_mut` under ANY extended script: only values change — the same keys in the
+    same slots, the same length and capacity, the same world; nothing panics. -/
+theorem mut_iterX_keeps_keys (R : Render K V) (kind : IterKind) (g : V → V) (script : List IterCmdX)
+    {s : St K V Q} {l : List (K × V)} (hr : Rep s.r l) :
+    ∃ out s' l', iterOpX R kind g script s = .ok out s' ∧ s'.w = s.w ∧ s'.r.cap = s.r.cap ∧
+      Rep s'.r l' ∧ l'.map (·.1) = l.map (·.1) := by
+  obtain ⟨o, s', l', e, h1, h2, _, h4, h5⟩ := iterOpX_spec R kind g script hr
+  exact ⟨o, s', l', e, h1, h2, h4, h5⟩
+
+/-- memory safety of the composite operation with ANY extended script and every kind, without any
+    assumption beyond `Safe`: `iterOpX` never reaches `ub` (the loop bound of `last()` is never
+    hit), never panics, and preserves `Safe`, the capacity, the length and the world. -/
+theorem iterOpX_safe (R : Render K V) (kind : IterKind) (g : V → V) (script : List IterCmdX)
+    {s : St K V Q} (hs : Safe s.r) :
+    Sat (iterOpX R kind g script) s
+      (fun _ s' => Safe s'.r ∧ s'.r.cap = s.r.cap ∧ s'.r.len = s.r.len ∧ s'.w = s.w)
+      (fun _ _ => False) := by
+  obtain ⟨o, s', l', e, h1, h2, _, h4, h5⟩ := iterOpX_spec R kind g script hs.rep
+  refine Sat.of_ok e ⟨h4.safe, h2, ?_, h1⟩
+  have := congrArg List.length h5
+  simp only [List.length_map] at this
+  rw [h4.1, this, hs.rep.1]
+
+/-! Non-vacuity: the model computes what the theorems say on the concrete container `exRaw`
+    (`[(7, 70), (8, 80)]`, capacity 3). -/
+
+def exR : Render Nat Nat :=
+  { dbgK := (fun _ k => toString k), dbgV := (fun _ v => toString v),
+    dspK := (fun k => toString k), dspV := (fun v => toString v) }
+
+example : (match iterNthR exRaw 1 ⟨0, 2⟩ exSt with | .ok x _ => x | _ => (none, ⟨9, 9⟩)) =
+    (some (1, (8, 80)), ⟨2, 2⟩) := by decide
+example : (match iterNthR exRaw 2 ⟨0, 2⟩ exSt with | .ok x _ => x | _ => (some (9, (9, 9)), ⟨9, 9⟩)) =
+    (none, ⟨2, 2⟩) := by decide
+example : (match iterLastR exRaw 3 ⟨0, 2⟩ none exSt with | .ok x _ => x | _ => (none, ⟨9, 9⟩)) =
+    (some (1, (8, 80)), ⟨2, 2⟩) := by decide
+example : (match iterLastR exRaw 1 ⟨2, 2⟩ none exSt with | .ok x _ => x | _ => (some (9, (9, 9)), ⟨9, 9⟩)) =
+    (none, ⟨2, 2⟩) := by decide
+/-- `values_mut`, script `nth(1); len; next`: the skipped entry keeps its value `70`, the received
+    one becomes `81`; `len()` is `0` and the `next` reports `None`. -/
+example : (match iterOpX exR .values_mut (· + 1) [.nth 1, .base .len, .base .next] exSt with
+    | .ok [.some (.ref 1 (.val 81)), .nat 0, .none] s => (s.r.slots 0, s.r.slots 1)
+    | _ => (none, none)) = (some (7, 70), some (8, 81)) := by decide
+/-- `iter_mut`, script `last`: only the last entry is written. -/
+example : (match iterOpX exR .iter_mut (· + 1) [.last, .base .next] exSt with
+    | .ok [.some (.ref 1 (.pair 8 81))] s => (s.r.slots 0, s.r.slots 1)
+    | _ => (none, none)) = (some (7, 70), some (8, 81)) := by decide
+/-- `keys`, script `clone; nth(0); last`: the clone is run out after the script ended at `last`. -/
+example : (match iterOpX exR .keys id [.base .clone, .nth 0, .last, .base .len] exSt with
+    | .ok [.some (.ref 0 (.key 7)), .some (.ref 1 (.key 8)), .list [.ref 0 (.key 7), .ref 1 (.key 8)]] _ => true
+    | _ => false) = true := by decide
+example : mapRange (wr (K := Nat) (· + 1)) 1 2 [(7, 70), (8, 80)] = [(7, 70), (8, 81)] := by decide
 
 end Micromap.Props.C09
